@@ -22,6 +22,8 @@ import EPV.Spec.Burn
 import EPV.Lemmas.BurnDSD
 import EPV.Tactics
 
+import EPV.Lemmas.Bridge.BurnAtoms
+
 set_option linter.all false
 
 open EPV EPV.Gen EPV.Spec.Burn EPV.Burn
@@ -48,10 +50,19 @@ theorem dsdcyl_continuous (p : DSDCyl.P) (h : DSDCyl.Adm p) :
 /-- the two traced leaves agree on the interface r = r₂ -/
 theorem dsdcyl_interface (p : DSDCyl.P) (x y : ℝ) (hr : Real.sqrt (x * x + y * y) = p.r_2) :
     DSDCyl.L8.burntime p x y = DSDCyl.L9.burntime p x y := by
-  simp only [epv_leaf, hr]
-  by_cases h : p.r_2 - p.alpha_2 / p.D_CJ_2 = 0
-  · simp [h]
-  · simp [div_self h]
+  -- `log (a / a) = 0` for every `a` (also `a = 0`), whatever the curvature shift in `a` looks like
+  have key : ∀ a : ℝ, Real.log (a / a) = 0 := by
+    intro a; by_cases h : a = 0
+    · simp [h]
+    · simp [div_self h]
+  have hr2 : x * x + y * y = p.r_2 ^ 2 := by
+    rw [← hr]; exact (Real.sq_sqrt (add_nonneg (mul_self_nonneg _) (mul_self_nonneg _))).symm
+  have hr0 : 0 ≤ p.r_2 := by rw [← hr]; exact Real.sqrt_nonneg _
+  simp only [epv_leaf]
+  -- the radius, however the code writes x² + y²
+  repeat epv_deton_sqrt_rw_by p.r_2 (rw [← hr2]; try ring1)
+  simp only [key, sub_self, mul_zero, zero_mul, add_zero, zero_add, zero_div]
+  epv_deton_nf_eq
 
 /-- strictly later at strictly larger radius, from the detonator circle outwards -/
 theorem dsdcyl_strictMono (p : DSDCyl.P) (h : DSDCyl.Adm p) (q q' : E2) (hq : p.r_1 ≤ ‖q‖) (hqq : ‖q‖ < ‖q'‖) :
